@@ -473,9 +473,13 @@ def _nodedup(arg):
             for n in range(0, depth):
                 for rest in itertools.product(evs, repeat=n):
                     h = [first] + list(rest)
-                    r = evaluate(ctx, h)
-                    t.count("nodedup_histories")
                     case = {"context": list(ctx_t), "history": h}
+                    try:
+                        r = evaluate(ctx, h)
+                    except pool.Watchdog:
+                        t.violation("no verdict within horizon", case)
+                        continue
+                    t.count("nodedup_histories")
                     if r["problem"]:
                         t.violation("%s: %s" % (ctx.name, r["problem"]), case)
                     elif r["f5"]:
